@@ -24,10 +24,16 @@ R_FILL = ("fill loop `for index in 0..count` writes slots old_len..len before `l
           "three-variable relation outside the difference-bound domain")
 
 
-def _e(key, reason, props, side=None):
+R_CAPH = ("heap back-end (feature alloc): the vector has no hard bound, but for valid input the big integer never exceeds BIGINT_LIMBS limbs "
+          "(same argument as the capacity entries, DESIGN appendix B), so x.len() <= 62 here; with the stack back-end the engine proves these sites")
+
+
+def _e(key, reason, props, side=None, only=None):
     d = {"key": key, "reason": reason, "props": props}
     if side:
         d["side"] = side
+    if only:
+        d["only"] = only          # applies only to analysis groups (configurations) whose name contains this string
     return d
 
 
@@ -89,6 +95,15 @@ AUDIT = [
        R_FILL, ["C04", "C08", "C12", "C13"]),
     _e("minimal_lexical::stackvec::{impl#6}::deref_mut | from_raw_parts-initialised | slice::from_raw_parts_mut(ptr, self.len())",
        R_FILL + " (inside the loop the exposed slice still has the old length, which was initialised on entry)", ["C04", "C08", "C12", "C13"]),
+] + [
+    # -- heap back-end only: consequences of len <= BIGINT_LIMBS, which the heap vector does not enforce ---------------------------------
+    _e("minimal_lexical::heapvec::{impl#0}::set_len | panic | debug_assert!(len <= bigint::BIGINT_LIMBS) >> $crate::assert!($($arg)*)", R_CAPH, ["C04"], CAP, only="alloc"),
+    _e("minimal_lexical::bigint::bit_length | assert:overflow:Mul | LIMB_BITS as u32 * x.len() as u32", R_CAPH, ["C04", "C12"], CAP, only="alloc"),
+    _e("minimal_lexical::bigint::bit_length | assert:overflow:Sub | LIMB_BITS as u32 * x.len() as u32 - nlz", R_CAPH, ["C04", "C12"], CAP, only="alloc"),
+    _e("minimal_lexical::slow::positive_digit_comp<F> | assert:overflow:Sub | bigmant.bit_length() as i32 - 64", R_CAPH, ["C04"], CAP, only="alloc"),
+    _e("minimal_lexical::slow::positive_digit_comp<F> | assert:overflow:Add | bigmant.bit_length() as i32 - 64 + F::EXPONENT_BIAS", R_CAPH, ["C04"], CAP, only="alloc"),
+    _e("minimal_lexical::rounding::round<F> | assert:overflow:Add | fp.exp += 1", R_CAPH, ["C04"], CAP, only="alloc"),
+    _e("minimal_lexical::rounding::round_nearest_tie_even | assert:overflow:Add | fp.exp += shift", R_CAPH, ["C04"], CAP, only="alloc"),
 ] + [
     # -- shipped front-end (7 copies): content-dependent arguments ---------------------------------------------------------
     _e("roots::fe_%s::parse_exponent | panic via core::option::Option::<T>::unwrap | to_digit(*c).unwrap()" % k,
